@@ -225,6 +225,23 @@ mut("openloop_skip_blocks_before_method", "pymtl3/passes/autotick/OpenLoopCLPass
     "        while i < my_idx_new:\n          schedule_no_method[i]()\n          i += 1\n        j = my_idx_orig + 1",
     "        while i < my_idx_new - 1:\n          schedule_no_method[i]()\n          i += 1\n        i = my_idx_new\n        j = my_idx_orig + 1", ["C17"])
 
+# -- reverse patches of the round-2 fixes (F28 F29 F30) and the C01b seed on top of F28 ----------------
+mut("asthelper_revert_nonfinal_index_visit", "pymtl3/dsl/AstHelper.py",
+    "                           f\"update block {self.upblk.__name__} in class {self.obj.__class__}.\" )\n        else: # s.sel[0], s.sel[0:2], s.sel + 1 ... still reads signals\n          self.visit( v )\n",
+    "                           f\"update block {self.upblk.__name__} in class {self.obj.__class__}.\" )\n",
+    ["C01", "C02"])
+mut("asthelper_nonfinal_index_never_visited", "pymtl3/dsl/AstHelper.py",
+    "        v = node.slice\n        n = \"*\"\n\n        if isinstance( v, ast.Attribute ): # s.sel, may be constant\n          self.visit( v )\n        elif isinstance( v, ast.Num ):",
+    "        v = node.slice\n        n = \"*\"\n\n        if isinstance( v, ast.Attribute ): # s.sel, may be constant\n          pass\n        elif isinstance( v, ast.Num ):",
+    ["C01", "C02"])
+mut("yosys_revert_subcomp_index_order", "pymtl3/passes/backends/yosys/translation/structural/YosysStructuralTranslatorL4.py",
+    "        idx = pre + idx\n        return [ template.format( **locals() ) ]",
+    "        idx = ''.join(reversed(['[' + x for x in pre.split('[') if x])) + idx\n        return [ template.format( **locals() ) ]",
+    ["C12"])
+mut("net_revert_via_ancestor_skip", "pymtl3/dsl/ComponentLevel3.py",
+    "for obj in ( () if via_ancestor else v.get_sibling_slices() ):",
+    "for obj in v.get_sibling_slices():", ["C08", "C01"])
+
 
 def load_extra():
   p = os.path.join(VERIF, "tools", "mutants_extra.json")
